@@ -87,7 +87,7 @@ theorem Sub.bin {s : Schema} {k : Bin} {l l' r r' : Plan} (hl : Sub l l') (hr : 
     cases k with
     | sjoin lk rk => trivial
     | ljoin => simpa [hlf] using h.2.2
-    | ojoin a b c d => exact h.2.2
+    | ojoin a b c d => trivial
   · intro f h
     simp only [NoMapHas] at h ⊢
     exact ⟨hl.nomap f h.1, hr.nomap f h.2⟩
